@@ -209,6 +209,35 @@ func (s *Sched) park(t *Task) {
 	<-t.wake
 }
 
+// mutexHolder is implemented (in the verif shims) by objects whose mutex is modelled.
+type mutexHolder interface {
+	VerifMutex(kind string) *sync.Mutex
+}
+
+// checkHeld verifies that every lock the model believes t holds is really locked: a change that
+// drops a Lock()/Unlock() pair but keeps the hook calls would otherwise blind the lock model.
+func (s *Sched) checkHeld(t *Task, where string) {
+	for k, site := range t.held {
+		mh, ok := k.obj.(mutexHolder)
+		if !ok {
+			continue
+		}
+		mu := mh.VerifMutex(k.kind)
+		if mu == nil {
+			continue
+		}
+		if mu.TryLock() {
+			mu.Unlock()
+			s.mu.Lock()
+			if s.Violation == nil {
+				s.Violation = &Violation{Oracle: "lock-model", Signature: "modelled-lock-not-held:" + k.kind + "@" + site,
+					Message: fmt.Sprintf("task %s is inside the critical section entered at %s (reached %s) but the %s mutex is not locked: other requests are not excluded", t.Name, site, where, k.kind)}
+			}
+			s.mu.Unlock()
+		}
+	}
+}
+
 func (s *Sched) point(owner any, name string) {
 	if !s.active {
 		return
@@ -217,6 +246,7 @@ func (s *Sched) point(owner any, name string) {
 	if t == nil {
 		return
 	}
+	s.checkHeld(t, name)
 	if f := s.OnPoint; f != nil {
 		f(t, name)
 	}
@@ -304,6 +334,7 @@ func (s *Sched) access(owner any, obj string, write bool) {
 		return
 	}
 	site := callSite(4)
+	s.checkHeld(t, "access "+obj)
 	s.mu.Lock()
 	defer s.mu.Unlock()
 	ls := map[lockKey]bool{}
